@@ -1,7 +1,9 @@
 package main
 
 import (
+	"bytes"
 	"fmt"
+	"strings"
 
 	"github.com/moov-io/ach"
 
@@ -28,6 +30,10 @@ type augSpec struct {
 	Plan []int `json:"plan"`
 	// non-zero: the source file is made valid only under an option set stored on it (gen.NeedsOpts)
 	NeedsOpts uint64 `json:"needsOpts,omitempty"`
+	// the file is written, the first 8 digits of every entry's trace number are replaced in the TEXT and the
+	// text is read back under CustomTraceNumbers: a file with foreign trace numbers that no Create has touched
+	// (its batches are then used as they are: plan ignored)
+	TextTraces bool `json:"textTraces,omitempty"`
 }
 
 func (a augSpec) opts() gen.Opts {
@@ -53,6 +59,36 @@ func (a augSpec) source() (f *ach.File, err error) {
 		}
 	}
 	return f, nil
+}
+
+// textTraces: see augSpec.TextTraces; nil when the file does not lend itself (ADV, returns, reader refuses).
+func textTraces(f *ach.File) *ach.File {
+	if f == nil || f.IsADV() {
+		return nil
+	}
+	var buf bytes.Buffer
+	if err := ach.NewWriter(&buf).Write(f); err != nil {
+		return nil
+	}
+	lines := strings.Split(buf.String(), "\n")
+	for i, l := range lines {
+		if len(l) == 94 && l[0] == '6' {
+			lines[i] = l[:79] + "99887766" + l[87:]
+		}
+		if len(l) == 94 && l[0] == '7' && (l[1:3] == "98" || l[1:3] == "99") {
+			return nil // returns and NOCs carry trace numbers of their own
+		}
+	}
+	rd := ach.NewReader(strings.NewReader(strings.Join(lines, "\n")))
+	rd.SetValidation(&ach.ValidateOpts{CustomTraceNumbers: true})
+	g, err := rd.Read()
+	if err != nil {
+		return nil
+	}
+	if g.Validate() != nil {
+		return nil
+	}
+	return &g
 }
 
 func resetNumber(b ach.Batcher) {
@@ -113,6 +149,11 @@ func buildAug(a augSpec) (*ach.File, error) {
 	f, err := a.source()
 	if err != nil {
 		return nil, err
+	}
+	if a.TextTraces {
+		if g := textTraces(f); g != nil {
+			return g, nil
+		}
 	}
 	// independent structural copies to cut the parts from
 	var c [5]*ach.File
@@ -200,6 +241,9 @@ func genAug(r *rng.R) fileSpec {
 	}
 	if r.Chance(1, 4) {
 		a.NeedsOpts = r.U64() | 1
+	}
+	if a.NeedsOpts == 0 && r.Chance(1, 6) {
+		a.TextTraces = true
 	}
 	return fileSpec{Tag: "gen", Aug: &a}
 }
